@@ -278,6 +278,39 @@ EXC_VARIANTS = {
 }
 
 
+EXC_VARIANTS.update({
+    "str-attr": "class Cus(Exception):\n    def __init__(self, a, b):\n        self.a = a\n        self.b = b\n"
+                "    def __str__(self):\n        return f'{self.a}-{self.b}'\ndef f0(x):\n    raise Cus(1, 'q')\n",
+    "str-empty": "class Cus(Exception):\n    def __str__(self):\n        return ''\ndef f0(x):\n    raise Cus(1)\n",
+    "str-nonstr": "class Cus(Exception):\n    def __str__(self):\n        return 5\ndef f0(x):\n    raise Cus(1)\n",
+    "str-inherited": "class Base(Exception):\n    def __str__(self):\n        return 'base ' + helper(self.args[0])\n"
+                     "class Cus(Base):\n    pass\ndef helper(v):\n    return str(v * 2)\ndef f0(x):\n    raise Cus(21)\n",
+    "str-of-cause": "class Cus(Exception):\n    def __str__(self):\n        return 'c text'\ndef f0(x):\n    try:\n"
+                    "        raise Cus(1)\n    except Cus as e:\n        raise ValueError('v') from e\n",
+    # a __str__ that waits: cannot be completed by the synchronous formatter (model: suspends); CPython has no
+    # task.sleep, its __str__ fails with NameError - the two last lines agree by construction of the case
+    "str-sleeps": "class Cus(Exception):\n    def __str__(self):\n        task.sleep(0.01)\n        return 'late'\n"
+                  "def f0(x):\n    raise Cus(1)\n",
+})
+# how the model sees the __str__ of each variant (default: native, the text is Python's)
+STR_KIND = {"str-raises": "raises", "str-custom": "returns", "str-attr": "returns", "str-empty": "returns",
+            "str-nonstr": "nonstring", "str-inherited": "returns", "str-sleeps": "suspends"}
+NL = "\u23ce"
+
+
+def last_line_driver(p, r):
+    """driver line for the last line of the report of an exception-class variant: (last NAME KIND TEXT)"""
+    name = p["shape"][len("exc:"):]
+    kind = STR_KIND.get(name, "native")
+    last = _unq(r.get("last", ""))
+    cls, sep, text = last.partition(": ")
+    if kind == "suspends":
+        text = "late"
+    elif kind in ("raises", "nonstring"):
+        text = ""
+    return "C18 " + sx(["last", cls, kind, text.replace("\n", NL)])
+
+
 def exc_variant_case(name, entry):
     src = EXC_VARIANTS[name]
     if entry == "load":
@@ -319,6 +352,7 @@ def dump_frames(exc, root):
     import ast as _ast
     from custom_components.pyscript import eval as ev
     out = []
+    ctx_ids = {}                       # identity of the evaluators, numbered in order of appearance
     tb = exc.__traceback__
     while tb:
         fr = tb.tb_frame
@@ -340,7 +374,8 @@ def dump_frames(exc, root):
                     if isinstance(v, (_ast.expr, _ast.stmt)) and hasattr(v, "lineno"):
                         line = v.lineno
                         break
-                out.append(["ae", _short(root, ctx.global_ctx.get_file_path() or ctx.filename), ctx.name, line])
+                out.append(["ae", ctx_ids.setdefault(id(ctx), len(ctx_ids) + 1),
+                            _short(root, ctx.global_ctx.get_file_path() or ctx.filename), ctx.name, line])
             else:
                 out.append(["o"])
         else:
@@ -492,8 +527,8 @@ def script_only(s):
             f, n, l = e.split("|")
             if n == "file.a.f0" and l == "1":
                 continue                                   # the harness's own call expression `K0().f0(1)`
-            if n in ("file.a", "modules.m", "-"):
-                n = "<module>"
+            if n == "-" or re.fullmatch(r"(file|modules)\.\w+", n):
+                n = "<module>"                             # a file body: the context's name stands for `<module>`
             norm.append(f"{f}|{n}|{l}")
         out.append("[" + " ".join(norm) + "]")
     return " ; ".join(out)
@@ -591,6 +626,30 @@ def svc_r(a=1):
     f(a)
     rec("svc_r", a)
     return {"a": a}
+
+ERR = ValueError('pre-built')
+
+def pre_a(x):
+    if x == 0:
+        raise ERR
+    return x
+
+def pre_b(x):
+    y = x
+    if y == 0:
+        raise ERR
+    return y
+
+@service
+def svc_pre_a(a=1):
+    pre_a(a)
+    rec("svc_pre_a", a)
+
+@service
+def svc_pre_b(a=1):
+    z = a
+    pre_b(z)
+    rec("svc_pre_b", a)
 '''
 MOD_SRC = '''def h(x):
     y = h2(x)
@@ -601,9 +660,11 @@ def h2(x):
     return x
 '''
 ENTRY_KINDS = ["trig_func", "trig_expr", "active_expr", "service", "task_create", "done_callback",
-               "event_expr", "mqtt_expr", "webhook_expr", "svc_response", "trig_func_x3", "service_x3"]
+               "event_expr", "mqtt_expr", "webhook_expr", "svc_response", "trig_func_x3", "service_x3", "same_instance"]
 EXPR_KINDS = ("trig_expr", "active_expr", "event_expr", "mqtt_expr", "webhook_expr")
-FAULT_REPEAT = {"trig_func_x3": 3, "service_x3": 3}     # the same error several times in a row: every one is reported
+FAULT_REPEAT = {"trig_func_x3": 3, "service_x3": 3, "same_instance": 2}
+# same_instance: ONE exception object built at file level is raised from two different functions by two services: every
+# report must show the frames of ITS raise (Python chains the earlier traceback of the object behind them)     # the same error several times in a row: every one is reported
 # trigger expressions that raise on their FIRST evaluation, the one done when the trigger starts (the entity they read
 # does not exist yet): (function, state variable, is the expression evaluated at start-up?)
 STARTUP_KINDS = [("t_hold", "lvl_h", True), ("t_hold_now", "lvl_hn", True), ("t_now", "lvl_n", True),
@@ -640,10 +701,13 @@ def entry_sources(p):
              "bad.py": "ok_before = 1\n\n@service\ndef bad_svc():\n    rec('bad_svc')\n\n"
                        "@event_trigger(\"ev_bad\")\ndef bad_trig(**kw):\n    rec('bad_trig')\n\n"
                        "@state_trigger(\"pyscript.bad_v == '1'\")\ndef bad_st(**kw):\n    rec('bad_st')\n\n"
+                       "@time_trigger(\"shutdown\")\ndef bad_shutdown():\n    rec('bad_shutdown')\n\n"
+                       "@time_trigger(\"startup\")\ndef bad_startup():\n    rec('bad_startup')\n\n"
+                       "@service\ndef shared_svc():\n    rec('bad_shared')\n\n"
                        "def boom(x):\n" + "".join("    " + l + "\n" for l in fl) + "    return x\n\nboom(0)\n",
              "badimp.py": "import badmod\n\n@service\ndef never():\n    rec('never')\n",
              "modules/badmod.py": "q = 1\n\n1 / 0\n",
-             "good.py": "@service\ndef good_svc():\n    rec('good')\n",
+             "good.py": "@service\ndef good_svc():\n    rec('good')\n\n@service\ndef shared_svc():\n    rec('shared_good')\n",
              "c.py": STARTUP_SRC,
              # syntax errors: in a main file, in an imported module, in a trigger expression string
              "syn.py": "x = 1\ny = (2 +\n",
@@ -757,6 +821,10 @@ def run_entry(p):
             elif kind == "service_x3":
                 for _ in range(3 if a == 0 else 1):
                     await env.call("pyscript", "svc", {"a": a})
+            elif kind == "same_instance":
+                await env.call("pyscript", "svc_pre_a", {"a": a})
+                await env.settle(0.05)
+                await env.call("pyscript", "svc_pre_b", {"a": a})
             await env.settle(0.2)
 
         # ---- load time and trigger start-up
@@ -789,9 +857,24 @@ def run_entry(p):
                                      for n, m in script if n.split(".")[1] in ("syn", "synimp", "synmod", "synexpr", "badcls")]
         # ---- nothing of the file that failed to load may be left behind
         left = []
+        # no function of the file that failed to load may ever have run (not even by the clean-up after the failure)
+        ran_at_load = sorted({str(r[1]) for r in env.records if str(r[1]).startswith("bad_")}
+                             | {n.split(".")[2] for n, _m in script if n.startswith("file.bad.")})
+        res["load"]["ran_at_load"] = ran_at_load
+        left += [f"{x} ran during the load pass" for x in ran_at_load]
         r0 = len(env.records)
         if env.hass.services.has_service("pyscript", "bad_svc"):
             left.append("service pyscript.bad_svc is registered")
+        try:
+            await env.call("pyscript", "shared_svc")     # defined by bad.py (failed) and by good.py: good.py's must serve
+        except Exception:  # pylint: disable=broad-except
+            pass
+        await env.settle(0.1)
+        shared = [str(r[1]) for r in env.records[r0:] if "shared" in str(r[1])]
+        if shared != ["shared_good"]:
+            left.append(f"service shared_svc (also defined by good.py) served by {shared}")
+        if any(n.startswith("file.good") for n, _m in script):
+            left.append("error record on the logger of good.py")
         try:
             await env.call("pyscript", "bad_svc")
         except Exception:  # pylint: disable=broad-except
@@ -800,7 +883,7 @@ def run_entry(p):
         await env.set_state("pyscript.bad_v", "0")
         await env.set_state("pyscript.bad_v", "1")
         await env.settle(0.2)
-        left += [f"{r[1]} ran" for r in env.records[r0:] if str(r[1]).startswith("bad_")]
+        left += [f"{r[1]} ran" for r in env.records[r0:] if str(r[1]).startswith("bad_") and r[1] != "bad_shared"]
         res["load"]["leftover"] = left
         for kind in ENTRY_KINDS:
             await env.set_state("pyscript.d1", "1")
@@ -887,7 +970,7 @@ def entry_expected(p):
         def plain(fn=None, *a, **k):
             return fn if callable(fn) else (lambda f: f)
         shim = {"event_trigger": ident, "state_trigger": ident, "state_active": ident, "service": plain,
-                "mqtt_trigger": ident, "webhook_trigger": ident,
+                "mqtt_trigger": ident, "webhook_trigger": ident, "time_trigger": ident,
                 "rec": lambda *a: None, "task": types.SimpleNamespace(create=lambda *a: None, add_done_callback=lambda *a: None)}
         for k, v in shim.items():
             setattr(builtins, k, v)
@@ -896,7 +979,7 @@ def entry_expected(p):
             pa = os.path.join(base, "a.py")
             exec(compile(open(pa).read(), pa, "exec"), ns)  # noqa: S102
             for key, call in (("f", "f(0)"), ("f_task", "f_task(0)"), ("cb", "cb(0)"), ("t_func", "t_func(0)"), ("svc", "svc(0)"),
-                              ("svc_r", "svc_r(0)")):
+                              ("svc_r", "svc_r(0)"), ("svc_pre_a", "svc_pre_a(0)"), ("svc_pre_b", "svc_pre_b(0)")):
                 try:
                     exec(compile(call, "<harness>", "exec"), ns)  # noqa: S102
                 except Exception as e:  # pylint: disable=broad-except
@@ -954,12 +1037,34 @@ def entry_line(p):
         [True, lg, [[ok, True, ok, True, R], [ok, True, ok, True, ok]]],            # service called with return_response
         [caught_fn, lg, [[ok, True, ok, True, R]] * 3 + [[ok, True, ok, True, ok]]],  # the same error three times
         [True, lg, [[ok, True, ok, True, R]] * 3 + [[ok, True, ok, True, ok]]],
+        [True, lg, [[ok, True, ok, True, R]] * 2 + [[ok, True, ok, True, ok]] * 2],   # one exception object, two services
     ]
     F, T = False, True
     for _fn, _var, evaluated in STARTUP_KINDS:
         occs = ([[R, T, ok, T, ok]] if evaluated else []) + [[ok, F, ok, T, ok], [ok, T, ok, T, ok]]
         loops.append([True, lg, occs])
-    return "C18 " + sx(["loops"] + loops)
+    return ["C18 " + sx(["loops"] + loops), "C18 " + sx(["load"] + [[n, (ok if good else R), k] for n, good, k in LOAD_PLAN])]
+
+
+# the planned files of an entry case in load order (load_scripts: sorted by context name): (context, loads?, number of
+# @time_trigger("shutdown") functions defined before the failure)
+LOAD_PLAN = [("file.a", True, 0), ("file.bad", False, 1), ("file.badcls", False, 0), ("file.badimp", False, 0),
+             ("file.c", True, 0), ("file.good", True, 0), ("file.syn", False, 0), ("file.synexpr", True, 0),
+             ("file.synimp", False, 0)]
+
+
+def load_impl_string(res):
+    """the load pass as the model prints it: registered contexts | files with a record on their own logger | functions run"""
+    ld = res["load"]
+    names = [n for n, _g, _k in LOAD_PLAN]
+    loaded = [n for n in names if n in ld["loaded"]]
+    recs = []
+    for n, _tb, _last in ld["script"]:
+        if n in names and n not in recs and n not in loaded:      # (the record of the failure that unloaded the file)
+            recs.append(n)
+    ran = ["file.bad" for _ in ld.get("ran_at_load", []) if _ == "bad_shutdown"]
+    fmt = lambda xs: "[" + ", ".join(xs) + "]"  # noqa: E731
+    return f"{fmt(loaded)}|{fmt(recs)}|{fmt(ran)}"
 
 
 def entry_impl_string(res):
@@ -975,7 +1080,7 @@ def entry_impl_string(res):
         r = res["startup"][fn]
         log = ["script:1:tb" for _ in r["script"]] + [f"{n.split('.')[0]}:1:plain" for n, _ in r["other"]]
         parts.append(f"done:{r['recs_after']},log:({' '.join(log)})")
-    return " ; ".join(parts)
+    return " ; ".join(parts) + " ;; load=" + load_impl_string(res)
 
 
 def entry_model_string(out):
@@ -1146,6 +1251,9 @@ def run_impl(cases):
         if c.payload["kind"] == "tb":
             c.impl = r["impl"]
             c.line = r["lines"]
+            if str(c.payload.get("shape", "")).startswith("exc:") and r["impl"] != "no-exception" and "last" in r:
+                c.impl += " ; last=" + _unq(r.get("last_ps", "")).replace("\n", NL)
+                c.line = list(c.line) + [last_line_driver(c.payload, r)]
         else:
             c.impl = entry_impl_string(r["res"])
 
@@ -1173,13 +1281,20 @@ def _execute(mod, cases, br):
         if c.payload["kind"] == "tb":
             models, specs, accepts = [], [], []
             for x in o:
-                m = re.match(r"model=(\[.*?\]) accept=(\d) spec=(\[.*\])$", x)
+                m = re.match(r"model=(\[.*?\]) accept=(\d) spec=(\[.*?\]) pre=(\[.*\])$", x)
                 if not m:
-                    models.append(x)
+                    ml = re.match(r"model=(.*) spec=(.*) pre=(.*)$", x)
+                    if ml:                                  # the last line of the report (exception-class variants)
+                        models.append("last=" + ml.group(1))
+                        c.payload["_last_spec"] = ml.group(2)
+                        c.payload["_last_pre"] = ml.group(3)
+                    else:
+                        models.append(x)
                     continue
                 models.append(m.group(1))
                 accepts.append(m.group(2))
                 specs.append(m.group(3))
+                c.payload.setdefault("_pre", []).append(m.group(4))
             c.model = " ; ".join(models) if o else (None if not c.line else "err")
             c.spec = " ; ".join(specs)
             c.payload["_accept"] = accepts
@@ -1191,6 +1306,12 @@ def _execute(mod, cases, br):
                 i = o[0].rfind(" spec=")
                 c.model = entry_model_string(o[0][len("model="):i])
                 c.spec = entry_model_string(o[0][i + len(" spec="):])
+                if len(o) > 1:
+                    ml = re.match(r"model=(.*) spec=(.*) pre=(.*)$", o[1])
+                    c.model += " ;; load=" + (ml.group(1) if ml else o[1])
+                    c.spec += " ;; load=" + (ml.group(2) if ml else "")
+                    c.payload["_load_pre"] = ml.group(3) if ml else None
+            c.line = " ;; ".join(c.line) if isinstance(c.line, list) else c.line
 
 
 common._execute = _execute
@@ -1240,7 +1361,7 @@ def verdict(c):
     want = {"trig_func": ("t_func", 0), "trig_expr": ("f", None), "active_expr": ("f", None), "service": ("svc", 0),
             "task_create": ("f_task", 0), "done_callback": ("cb", 0), "event_expr": ("f", None), "mqtt_expr": ("f", None),
             "webhook_expr": ("f", None), "svc_response": ("svc_r", 0), "trig_func_x3": ("t_func", 0),
-            "service_x3": ("svc", 0)}
+            "service_x3": ("svc", 0), "same_instance": ("svc_pre_a", 0)}
     deferred = None
     for kind in ENTRY_KINDS:
         k = res[kind]
@@ -1254,6 +1375,13 @@ def verdict(c):
         if len(k["script"]) != nrep or k["other"]:
             return (f"{kind}: {len(k['script'])} error record(s) on the script's logger, {len(k['other'])} on "
                     f"{sorted({n for n, _ in k['other']})} (expected exactly {nrep}, on the script's logger)")
+        if kind == "same_instance":
+            gots = [tb for _n, tb, _last in k["script"]]
+            wants = [exp.get("svc_pre_a", [[]])[-1], exp.get("svc_pre_b", [[]])[-1]]
+            if gots != wants:
+                return (f"same_instance: the reports of ONE exception object raised from two places are {gots}, "
+                        f"CPython reports {wants}")
+            continue
         if len({(tuple(tb), last) for _n, tb, last in k["script"]}) != 1:
             return f"{kind}: the {nrep} reports of the same error differ from each other"
         name, tb, last = k["script"][0]
@@ -1397,6 +1525,9 @@ def classify(c, reason):
         return "tb:" + re.sub(r"\d+", "N", reason)[:50]
     if reason.startswith(("trig_func:", "trig_func_x3:")) and not p["legacy"] and "on ['function']" in reason:
         return "new-subsystem-trigger-function-error-not-on-script-logger"
+    if reason.startswith("load: file.bad raised at load time but parts of it are still live: ['bad_shutdown ran during the load pass']") \
+            and p["legacy"]:
+        return "failed-load-runs-its-shutdown-trigger-function"
     if reason.startswith("load-import:"):
         return "imported-module-load-frames-attributed-to-importing-file"
     m = re.search(r"logged cause traceback (\[.*\]) differs from CPython (\[.*\])$", reason)
@@ -1448,7 +1579,8 @@ def _merged(ea, eb):
 def replay_cases(obj):
     p = obj["case"]
     p.pop("_run", None)
-    p.pop("_accept", None)
+    for k in ("_accept", "_pre", "_last_spec", "_last_pre", "_load_pre"):
+        p.pop(k, None)
     return [Case(p, entry_line(p) if p["kind"] == "entry" else None)]
 
 
